@@ -106,7 +106,8 @@ fn check_sfnt(file: &[u8], model: &BTreeMap<[u8; 4], Vec<u8>>) -> Result<Checked
     // binary-search helper fields, from the spec formula (OpenType "Table Directory"):
     // entrySelector = floor(log2 n), searchRange = 16 * 2^entrySelector, rangeShift = 16 n - searchRange.
     // Integer arithmetic only. log2(0) is undefined, so a font with no tables is not judged here.
-    if n >= 1 {
+    // (from 4096 tables on, 16 * 2^entrySelector no longer fits the 16-bit field: not judged)
+    if n >= 1 && n < 4096 {
         let es = (usize::BITS - 1 - n.leading_zeros()) as usize;
         let want = ((16usize << es) as u16, es as u16, (16 * n - (16usize << es)) as u16);
         let got = (be16(file, 6).unwrap_or(0), be16(file, 8).unwrap_or(0), be16(file, 10).unwrap_or(0));
@@ -569,6 +570,153 @@ fn external_font_check(run: &Run) {
     run.observe(h.finish(), true);
 }
 
+// ---------------------------------------------------------------------------
+// offset-width family: table offsets on both sides of 2^16 and 2^24
+// ---------------------------------------------------------------------------
+
+/// One font: filler table `aaaa` sized so that the next table `bbbb` starts at 2^k + d (and `cccc`
+/// 16 bytes later), all three with distinct content. Checked: the from-spec checker on the built
+/// bytes (which also compares `FontRef::table_data` for every tag with the bytes at the offset the
+/// harness parsed itself), and `copy_missing_tables` from that font into a fresh builder and into a
+/// builder that already holds `bbbb`.
+fn offset_width_case(run: &Run, k: u32, d: i64, l: &mut Local) {
+    let case = json!({"family":"offset_width","k":k,"d":d});
+    // physical order is alphabetical for these tags; directory = 12 + 3*16 bytes
+    let filler_len = ((1i64 << k) + d - 60) as usize;
+    let tables: Vec<([u8; 4], Vec<u8>)> = vec![
+        (*b"aaaa", (0..filler_len).map(|i| (i % 251) as u8).collect()),
+        (*b"bbbb", (0..13u8).map(|i| 0xB0 ^ i).collect()),
+        (*b"cccc", vec![0xC1, 0xC2, 0xC3, 0xC4, 0xC5, 0xC6, 0xC7]),
+    ];
+    let model: BTreeMap<[u8; 4], Vec<u8>> = tables.iter().cloned().collect();
+    let ident = |what: &str, class: &str| format!("FontBuilder offset-width: {what}: {class} (table offsets around 2^{k})");
+    l.builds += 1;
+    let file = match guard(|| {
+        let mut b = FontBuilder::new();
+        for (t, data) in &tables {
+            b.add_raw(Tag::new(t), data.clone());
+        }
+        b.build()
+    }) {
+        Ok(f) => f,
+        Err(p) => {
+            run.violation(&ident("build", &format!("panic {} [{}]", p.kind(), p.site())), &p.message, case);
+            return;
+        }
+    };
+    // the family is only meaningful if `bbbb` really sits at 2^k + d
+    let bbbb_off = be32(&file, 12 + 16 + 8).unwrap_or(0) as i64;
+    if bbbb_off != (1i64 << k) + d {
+        run.machinery_error(&format!("offset-width family: bbbb at {bbbb_off}, wanted 2^{k}{d:+}"));
+        return;
+    }
+    if let Err((class, detail)) = check_sfnt(&file, &model) {
+        run.violation(&ident("built font", &class), &format!("d={d}: {detail}"), case);
+        return;
+    }
+    // copy into a fresh builder, and into one that already has its own bbbb (must be kept)
+    for own_bbbb in [false, true] {
+        let mut want = model.clone();
+        if own_bbbb {
+            want.insert(*b"bbbb", vec![0xEE; 5]);
+        }
+        l.builds += 1;
+        let copied = guard(|| {
+            let mut b = FontBuilder::new();
+            if own_bbbb {
+                b.add_raw(Tag::new(b"bbbb"), vec![0xEEu8; 5]);
+            }
+            let src = FontRef::new(&file).expect("built font opens");
+            b.copy_missing_tables(src);
+            b.build()
+        });
+        match copied {
+            Ok(f2) => {
+                if let Err((class, detail)) = check_sfnt(&f2, &want) {
+                    run.violation(&ident("copy_missing_tables from it", &class), &format!("d={d} own_bbbb={own_bbbb}: {detail}"), case.clone());
+                    return;
+                }
+            }
+            Err(p) => {
+                run.violation(&ident("copy_missing_tables from it", &format!("panic {} [{}]", p.kind(), p.site())), &p.message, case.clone());
+                return;
+            }
+        }
+    }
+    let mut h = Fnv::new();
+    h.str("offset_width");
+    h.u64(k as u64);
+    h.i64(d.signum());
+    l.all.insert(h.finish());
+    l.nontrivial.insert(h.finish());
+}
+
+fn offset_width_family(run: &Run) {
+    let mut cases: Vec<(u32, i64)> = vec![];
+    for d in [-16i64, -4, 0, 4] {
+        cases.push((16, d));
+        cases.push((24, d));
+    }
+    if run.tier == Tier::Thorough {
+        for d in (-64i64..=64).step_by(4) {
+            for k in [16u32, 24] {
+                if !cases.contains(&(k, d)) {
+                    cases.push((k, d));
+                }
+            }
+        }
+    }
+    run.bound("offset_width", json!("3-table fonts whose second table starts at 2^k + d, k in {16, 24}, d in {-16,-4,0,4} (thorough: -64..=64 step 4): built font checked from spec + through FontRef::table_data, then used as a copy_missing_tables source (fresh builder / builder with its own bbbb)"));
+    let locals: Vec<Local> = cases
+        .par_iter()
+        .map(|(k, d)| {
+            let mut l = Local::new();
+            offset_width_case(run, *k, *d, &mut l);
+            l
+        })
+        .collect();
+    for l in &locals {
+        run.observe_many(&l.all, &l.nontrivial);
+        run.evals(l.builds);
+    }
+    run.count("offset_width_fonts", cases.len() as u64);
+}
+
+/// Many tables: n distinct 4-hex-digit tags with one byte each. 4095 is the largest count whose
+/// searchRange fits the 16-bit field; 4096 is the first that does not.
+fn many_tables_case(run: &Run, n: usize, l: &mut Local) {
+    let case = json!({"family":"many_tables","n":n});
+    let tables: Vec<([u8; 4], Vec<u8>)> = (0..n).map(|i| (format!("{i:04x}").into_bytes().try_into().unwrap(), vec![(i % 251) as u8])).collect();
+    let model: BTreeMap<[u8; 4], Vec<u8>> = tables.iter().cloned().collect();
+    l.builds += 1;
+    let file = match guard(|| {
+        let mut b = FontBuilder::new();
+        for (t, data) in &tables {
+            b.add_raw(Tag::new(t), data.clone());
+        }
+        b.build()
+    }) {
+        Ok(f) => f,
+        Err(p) => {
+            run.violation(
+                &format!("FontBuilder::build panic with many tables: {} [{}] ({} tables)", p.kind(), p.site(), if n >= 4096 { ">= 4096" } else { "< 4096" }),
+                &format!("{n} one-byte tables: {} at {}:{}", p.message, p.file, p.line),
+                case,
+            );
+            return;
+        }
+    };
+    if let Err((class, detail)) = check_sfnt(&file, &model) {
+        run.violation(&format!("FontBuilder many tables: {class} ({} tables)", if n >= 4096 { ">= 4096" } else { "< 4096" }), &format!("{n} tables: {detail}"), case);
+        return;
+    }
+    let mut h = Fnv::new();
+    h.str("many");
+    h.u64(n as u64);
+    l.all.insert(h.finish());
+    l.nontrivial.insert(h.finish());
+}
+
 struct Sources {
     /// (file bytes, index within the file)
     files: Vec<(Vec<u8>, u32)>,
@@ -796,6 +944,10 @@ fn body(run: &Run, replay: Option<&Value>) {
         let mut l = Local::new();
         if case["family"] == "external" {
             external_font_check(run);
+        } else if case["family"] == "offset_width" {
+            offset_width_case(run, case["k"].as_u64().unwrap_or(16) as u32, case["d"].as_i64().unwrap_or(0), &mut l);
+        } else if case["family"] == "many_tables" {
+            many_tables_case(run, case["n"].as_u64().unwrap_or(0) as usize, &mut l);
         } else if case["family"] == "history" {
             let ops: Vec<u32> = case["ops"].as_array().map(|a| a.iter().map(|x| x.as_u64().unwrap_or(0) as u32).collect()).unwrap_or_default();
             run_history(run, &ops, &sources(), &mut l);
@@ -828,6 +980,17 @@ fn body(run: &Run, replay: Option<&Value>) {
         maps_family(run, &HIGH_POOL, 8, &[0, 3, 13], &[1, 2], &[(0..8).collect(), (0..8).rev().collect()], "8tags_high_byte_pool_2_orders");
     }
     external_font_check(run);
+    offset_width_family(run);
+    {
+        let mut l = Local::new();
+        for n in [255usize, 256, 4095, 4096] {
+            many_tables_case(run, n, &mut l);
+        }
+        run.observe_many(&l.all, &l.nontrivial);
+        run.evals(l.builds);
+        run.count("many_table_fonts", 4);
+        run.bound("many_tables", json!("fonts of 255, 256, 4095 and 4096 one-byte tables (4096 = first count whose searchRange does not fit 16 bits)"));
+    }
     match run.tier {
         Tier::Quick => {
             // 8 of the 24 orders: every tag appears in every position at least once
